@@ -79,3 +79,26 @@ proof fn lemma_replaced2_break_free(s: Seq<char>)
         }
     }
 }
+
+// ---- block scalar indentation indicator (C12) ----
+
+/// leading spaces of the first non-empty line at or after index i (0 if there is none)
+spec fn first_line_spaces(lines: Seq<Seq<char>>, i: int) -> nat
+    decreases lines.len() - i
+{
+    if i < 0 || i >= lines.len() { 0 } else if lines[i].len() > 0 { leading_spaces(lines[i]) } else { first_line_spaces(lines, i + 1) }
+}
+
+proof fn lemma_leading_spaces_prefix(s: Seq<char>)
+    ensures
+        leading_spaces(s) <= s.len(),
+        forall|i: int| 0 <= i < leading_spaces(s) ==> s[i] == ' ',
+    decreases s.len(),
+{
+    if s.len() > 0 && s[0] == ' ' {
+        lemma_leading_spaces_prefix(s.skip(1));
+        assert forall|i: int| 0 <= i < leading_spaces(s) implies s[i] == ' ' by {
+            if i > 0 { assert(s.skip(1)[i - 1] == s[i]); }
+        }
+    }
+}
